@@ -153,6 +153,16 @@ _modify_dispatch_descriptor_(struct qb_ipcs_connection *c)
 {
 	qb_ipcs_dispatch_mod_fn disp_mod = c->service->poll_fns.dispatch_mod;
 
+	if (c->state != QB_IPCS_CONNECTION_ACTIVE &&
+	    c->state != QB_IPCS_CONNECTION_ESTABLISHED) {
+		/*
+		 * Its sockets are closed, and their numbers may be in use
+		 * by another connection by now, whose poll entry we would
+		 * hijack.
+		 */
+		return 0;
+	}
+
 	if (c->service->type == QB_IPC_SOCKET) {
 		return disp_mod(c->service->poll_priority,
 				c->event.u.us.sock,
